@@ -4,12 +4,15 @@ package main
 import (
 	"context"
 	"encoding/binary"
+	"errors"
 	"fmt"
 	"io"
 	"math"
+	"os"
 	rtrace "runtime/trace"
 	"strings"
 	"sync"
+	"time"
 
 	"go.opentelemetry.io/otel/attribute"
 	sdktrace "go.opentelemetry.io/otel/sdk/trace"
@@ -94,15 +97,31 @@ func (e *recExporter) ExportSpans(_ context.Context, ss []sdktrace.ReadOnlySpan)
 }
 func (e *recExporter) Shutdown(context.Context) error { return nil }
 
+// gatedFailingExporter records what it is handed, holds its first call until the gate opens and fails every call.
+type gatedFailingExporter struct {
+	recExporter
+	gate chan struct{}
+}
+
+func (e *gatedFailingExporter) ExportSpans(ctx context.Context, ss []sdktrace.ReadOnlySpan) error {
+	<-e.gate
+	e.recExporter.ExportSpans(ctx, ss)
+	return errors.New("collector unavailable")
+}
+
 type recProcessor struct {
-	mu    sync.Mutex
-	ended map[trace.SpanID]int
+	mu      sync.Mutex
+	ended   map[trace.SpanID]int
+	parents map[trace.SpanID]trace.SpanContext
 }
 
 func (p *recProcessor) OnStart(context.Context, sdktrace.ReadWriteSpan) {}
 func (p *recProcessor) OnEnd(s sdktrace.ReadOnlySpan) {
 	p.mu.Lock()
 	p.ended[s.SpanContext().SpanID()]++
+	if p.parents != nil {
+		p.parents[s.SpanContext().SpanID()] = s.Parent()
+	}
 	p.mu.Unlock()
 }
 func (p *recProcessor) Shutdown(context.Context) error   { return nil }
@@ -320,7 +339,7 @@ func main() {
 				compName += " nested"
 			}
 			rs := &recordingSampler{inner: inner}
-			proc := &recProcessor{ended: map[trace.SpanID]int{}}
+			proc := &recProcessor{ended: map[trace.SpanID]int{}, parents: map[trace.SpanID]trace.SpanContext{}}
 			e1 := &recExporter{spans: map[trace.SpanID]int{}}
 			e2 := &recExporter{spans: map[trace.SpanID]int{}}
 			bopts := []sdktrace.BatchSpanProcessorOption{sdktrace.WithMaxQueueSize(4096), sdktrace.WithMaxExportBatchSize(64)}
@@ -328,9 +347,19 @@ func main() {
 			if blocking {
 				bopts = append(bopts, sdktrace.WithBlocking())
 			}
-			tp := sdktrace.NewTracerProvider(sdktrace.WithSampler(rs), sdktrace.WithSpanProcessor(proc),
-				sdktrace.WithSyncer(e1), sdktrace.WithBatcher(e2, bopts...))
+			tpOpts := []sdktrace.TracerProviderOption{sdktrace.WithSampler(rs), sdktrace.WithSpanProcessor(proc),
+				sdktrace.WithSyncer(e1), sdktrace.WithBatcher(e2, bopts...)}
+			// sometimes a third exporter that is unavailable: its first call is held until the provider is being shut
+			// down and every call fails, so most of its spans are still queued when Shutdown drains the processor.
+			// A span handed to ExportSpans has reached the exporter whatever the call returns.
+			var e3 *gatedFailingExporter
+			if r.Chance(1, 8) {
+				e3 = &gatedFailingExporter{recExporter: recExporter{spans: map[trace.SpanID]int{}}, gate: make(chan struct{})}
+				tpOpts = append(tpOpts, sdktrace.WithBatcher(e3, sdktrace.WithMaxQueueSize(4096), sdktrace.WithMaxExportBatchSize(1+r.Intn(4)), sdktrace.WithBatchTimeout(time.Hour)))
+			}
+			tp := sdktrace.NewTracerProvider(tpOpts...)
 			tr := tp.Tracer("c09")
+			expParent := map[trace.SpanID]trace.SpanContext{}
 
 			var nodes []*node
 			// Uniqueness is asserted per provider here. (Across providers it is asserted in the
@@ -452,6 +481,7 @@ func main() {
 					recording[sc.SpanID()] = true
 				}
 				n := &node{span: span, ctx: ctx, decision: d, depth: depth, sc: sc}
+				expParent[sc.SpanID()] = effParent
 				nodes = append(nodes, n)
 				k.C.Count("spans", 1)
 				k.C.Count(fmt.Sprintf("decision_%d", d), 1)
@@ -493,8 +523,24 @@ func main() {
 					n.span.End()
 				}
 			}
-			tp.ForceFlush(context.Background())
-			tp.Shutdown(context.Background())
+			if e3 == nil {
+				tp.ForceFlush(context.Background())
+				tp.Shutdown(context.Background())
+			} else {
+				done := make(chan struct{})
+				go func() { tp.Shutdown(context.Background()); close(done) }()
+				time.Sleep(time.Duration(r.Intn(3)) * time.Millisecond) // shapes the schedule only: Shutdown usually gets to stop the worker first
+				close(e3.gate)
+				<-done
+				k.C.Count("trees_with_failing_batch_exporter", 1)
+			}
+			// the snapshot names the parent the span was started under (none for a root, also one made with WithNewRoot)
+			for id, want := range expParent {
+				if got, ok := proc.parents[id]; ok && !got.Equal(want) {
+					k.Violate("snapshot-parent-wrong", "", fmt.Sprintf("span %s: Parent()={valid=%v %s %s remote=%v}, started under {valid=%v %s %s remote=%v}", id, got.IsValid(), got.TraceID(), got.SpanID(), got.IsRemote(), want.IsValid(), want.TraceID(), want.SpanID(), want.IsRemote()), nil)
+					break
+				}
+			}
 			check := func(name string, got map[trace.SpanID]int, want map[trace.SpanID]bool) {
 				for id, n := range got {
 					if !want[id] {
@@ -513,6 +559,9 @@ func main() {
 			check("processor", proc.ended, recording)
 			check("simple-exporter", e1.spans, sampled)
 			check("batch-exporter", e2.spans, sampled)
+			if e3 != nil {
+				check("failing-batch-exporter", e3.spans, sampled)
+			}
 			if k.Index < 2 {
 				k.C.Sample(map[string]any{"family": "trees", "sampler": compName, "spans": len(nodes), "sampled": len(sampled), "recording": len(recording)})
 			}
@@ -527,6 +576,16 @@ func main() {
 			c.Inconclusive("runtime/trace could not be started: " + err.Error())
 		}
 		c.Floor("trees_under_runtime_trace", 1000)
+		// the same trees while the environment names a sampler: the sampler passed as an option is the one consulted
+		for _, ev := range [][2]string{{"always_off", ""}, {"always_on", ""}, {"traceidratio", "0.3"}, {"parentbased_always_off", ""}, {"parentbased_traceidratio", "0.7"}} {
+			os.Setenv("OTEL_TRACES_SAMPLER", ev[0])
+			os.Setenv("OTEL_TRACES_SAMPLER_ARG", ev[1])
+			c.Cases("trees-env-"+ev[0], c.N(1_500, 15_000), 0, func(k *vf.Case) { runTree(k); k.C.Count("trees_with_sampler_named_in_environment", 1) })
+			os.Unsetenv("OTEL_TRACES_SAMPLER")
+			os.Unsetenv("OTEL_TRACES_SAMPLER_ARG")
+		}
+		c.Floor("trees_with_sampler_named_in_environment", 5000)
+		c.Floor("trees_with_failing_batch_exporter", 1000)
 
 		// ---------------- custom id generator ----------------
 		c.Cases("idgen", c.N(3_000, 30_000), 0, func(k *vf.Case) {
